@@ -68,8 +68,14 @@ pub fn is_child() -> bool {
 pub fn note_panic(pi: &PanicInfo) {
     if let Ok(mut g) = PROGRESS.try_lock() {
         if let Some(p) = g.as_mut() {
-            p.panic = format!("{} {} | {}", pi.site(), pi.msg_class(), pi.msg);
-            flush(p);
+            // keep the first panic of the case: a panic that crosses an
+            // `extern "sysv64"` callback is followed by "panic in a function
+            // that cannot unwind", which says nothing
+            if p.panic.is_empty() {
+                p.panic =
+                    format!("{} {} | {}", pi.site(), pi.msg_class(), pi.msg);
+                flush(p);
+            }
         }
     }
 }
